@@ -59,6 +59,7 @@ struct Layout {
   uint64_t seed = 1;   // drives every layout decision
   int nfiles = 1;      // target number of files (main + included)
   int spelling = 0;    // 0 upper, 1 capitalised, 2 lower, 3 mixed
+  int cut_defs = 0;    // 1 (free / dense styles): a third of the file boundaries are placed inside the macro definitions at the top
   int naming = 0;      // 0 inc1.theo / shared1.theo / ...; 1 every name extends the main file's name and each other (main.theo.1, main.theo.12, ...)
 };
 
